@@ -578,6 +578,10 @@ def _nonempty_guard(c, idx):
     return False
 
 
+def _is_inf(x):
+    return isinstance(x, Node) and x.op == "const" and x.kids and x.kids[0] == "inf"
+
+
 def _mk_where(c, x, y):
     """where(c, x, y) with canonical polarity and without unreachable nested branches"""
     while isinstance(c, Node) and c.op in ("invert", "not") and len(c.kids) == 1:
@@ -823,7 +827,16 @@ class Normalizer:
                     return self.nf(Term("min", hi, inner))
         if op in ("gt", "ge") and len(a) == 2:
             # a > b  ==  b < a
-            return P_atom(A("lt" if op == "gt" else "le", self.freeze(a[1]), self.freeze(a[0])))
+            return self.nf(Term("lt" if op == "gt" else "le", a[1], a[0]))
+        if op == "lt" and len(a) == 2:
+            x, y = self.freeze(a[0]), self.freeze(a[1])
+            # min(where(m, v, inf)) < inf  ==  any(m)   when m itself bounds v (a conjunct v < c), so v is finite on m
+            if _is_inf(y) and isinstance(x, Node) and x.op == "amin" and len(x.kids) == 1 and isinstance(x.kids[0], Node) and x.kids[0].op == "where3" and _is_inf(x.kids[0].kids[2]):
+                m, v = x.kids[0].kids[0], x.kids[0].kids[1]
+                conj = m.kids if isinstance(m, Node) and m.op == "bitand" else (m,)
+                if any(isinstance(c_, Node) and c_.op == "lt" and c_.kids[0] is v and not _is_inf(c_.kids[1]) for c_ in conj):
+                    return P_atom(A("any", m))
+            return P_atom(A("lt", x, y))
         if op in ("eq", "ne") and len(a) == 2:
             x, y = self.freeze(a[0]), self.freeze(a[1])
             if id(x) > id(y) if (isinstance(x, Node) and isinstance(y, Node)) else repr(x) > repr(y):
@@ -985,6 +998,18 @@ class Normalizer:
                 chain = min(rots, key=lambda c: tuple(id(x) for x in c))
             if op == "sum" and not has_axis and not rest and len(chain) == 1 and chain[0].op == "sum" and all(isinstance(r, tuple) and r and r[0] == "axis" for r in chain[0].kids[1:]):
                 chain = (chain[0].kids[0],)  # the total of partial sums is the total
+            if op == "sum" and not has_axis and not rest and len(chain) == 1 and chain[0].op == "had":
+                # sum_ij P_ij Q_ij = trace(P Q^T)  (and sum of squares = trace(P P^T)): one canonical form
+                fs = list(chain[0].kids[0])
+                pq = None
+                if len(fs) == 2 and all(e == 1 for _, e in fs):
+                    pq = (fs[0][0], fs[1][0])
+                elif len(fs) == 1 and fs[0][1] == 2:
+                    pq = (fs[0][0], fs[0][0])
+                if pq is not None:
+                    inner2 = frozenset([((s, (pq[0], t_atom(pq[1], self.symmetric))), k)])
+                    out = p_add(out, self.linear_reduce("trace", (None,), cyclic=True, inner=inner2))
+                    continue
             atom = A(op, chain_atom(chain) if chain else A("one"), *rest)
             if cyclic or not has_axis:
                 m = (_merge_s(s, frozenset([(atom, ONE)])), ())
